@@ -149,6 +149,9 @@ def run_case(case):
     toks = toks + expl
     if len(ref.dcline):
         toks.append("has_dcline")
+    slack = set(ref.ext_grid.bus[ref.ext_grid.in_service]) | set(ref.gen.bus[ref.gen.in_service & ref.gen.slack])
+    if slack & set(case["split"]["E"]):
+        toks.append("slack_in=external")
     for tab in ("xward", "ward"):
         if len(ref[tab]):
             E = set(case["split"]["E"])
